@@ -34,7 +34,7 @@ type c15StoreCase struct {
 func c15StoreGen(t *rapid.T) c15StoreCase {
 	c := c15StoreCase{StoreCap: rapid.IntRange(4, 24).Draw(t, "cap"), Tables: rapid.IntRange(1, 8).Draw(t, "tables"), Rows: rapid.SampledFrom([]int{10, 40, 90, 200}).Draw(t, "rows")}
 	for n := rapid.IntRange(20, 300).Draw(t, "nops"); n > 0; n-- {
-		op := c15StoreOp{Op: rapid.SampledFrom([]string{"fetch", "fetch", "fetch", "fetch", "fetch", "fetch", "dirty", "dirty", "dirty", "dirty", "flush", "flush", "root", "root", "failflush"}).Draw(t, "op"), Page: rapid.IntRange(0, 400).Draw(t, "page")}
+		op := c15StoreOp{Op: rapid.SampledFrom([]string{"fetch", "fetch", "fetch", "fetch", "fetch", "fetch", "dirty", "dirty", "dirty", "dirty", "flush", "flush", "root", "root", "failflush", "otherflush"}).Draw(t, "op"), Page: rapid.IntRange(0, 400).Draw(t, "page")}
 		c.StoreOps = append(c.StoreOps, op)
 	}
 	return c
@@ -121,6 +121,12 @@ func c15StoreRun(c c15StoreCase, st *vlib.Stats) string {
 		return ""
 	}
 	fetches, refusals, evictions := 0, 0, 0
+	var other *RelationService // a second database open in the same process
+	defer func() {
+		if other != nil {
+			other.VerifAbandon()
+		}
+	}()
 	for i, op := range c.StoreOps {
 		where := fmt.Sprintf("step %d (%s)", i, op.Op)
 		off := uint64(1+op.Page%(npages-1)) * pageSize
@@ -170,6 +176,27 @@ func c15StoreRun(c c15StoreCase, st *vlib.Stats) string {
 				n.markDirty(lsn)
 				held[off] = n
 				lastStamp[off] = lsn
+			}
+		case "otherflush":
+			// another database of the same process is created (first time) / flushed: its cache is its own,
+			// nothing about this store's pages may change
+			if other == nil {
+				if err := CreateDB("c15other"); err != nil {
+					return where + ": CreateDB of a second database failed: " + err.Error()
+				}
+				o, err := OpenRelation("c15other", true)
+				if err != nil {
+					return where + ": OpenRelation of a second database failed: " + err.Error()
+				}
+				other = o
+			}
+			if err := other.fs.flushPages(); err != nil {
+				return where + ": flush of the second database failed: " + err.Error()
+			}
+			for off, n := range held {
+				if lastStamp[off] != 0 && n.lastLSN == lastStamp[off] && !n.isDirty() {
+					return fmt.Sprintf("%s: page %d of this database lost its dirty flag when ANOTHER database was flushed", where, off)
+				}
 			}
 		case "failflush":
 			// the data file refuses writes for the duration of one flush (a full disk, an I/O
